@@ -846,7 +846,11 @@ det_connect(det_t *d, int pi)
 	uint8_t fence[3] = { 0x01, 'F', (uint8_t) pi };
 	int     rv;
 	bool    up = false;
-	if ((rv = vf_connect(d->sub, d->pub[pi], d->tran)) != 0) {
+	// The publisher listens and the subscriber dials: a stray dialer of
+	// some other process on this machine that reaches our ephemeral tcp
+	// port can then only become one more subscriber, never a publisher
+	// feeding foreign messages into the socket under test.
+	if ((rv = vf_connect(d->pub[pi], d->sub, d->tran)) != 0) {
 		// not a PUB/SUB matter (C14 owns connection establishment)
 		abandoned_connect++;
 		d->failed = true;
@@ -868,8 +872,8 @@ det_connect(det_t *d, int pi)
 		if (raw_publish(d->pub[pi], probe, 3, 0) != 0) vf_harness_fail("probe send");
 		probes++;
 		if (z_recv(d, &j, 25, &m) == 0) {
+			up = nng_msg_len(m) == 3 && memcmp(nng_msg_body(m), probe, 3) == 0;
 			nng_msg_free(m);
-			up = true;
 		}
 	}
 	if (!up) {
@@ -1390,7 +1394,7 @@ conc_case(long idx)
 	for (int i = 0; i < 2; i++) {
 		if (nng_pub0_open(&c->pub[i]) != 0) vf_harness_fail("pub open");
 		nng_socket_set_ms(c->pub[i], NNG_OPT_SENDTIMEO, 10000);
-		if ((rv = vf_connect(c->sub, c->pub[i], c->tran)) != 0) {
+		if ((rv = vf_connect(c->pub[i], c->sub, c->tran)) != 0) {
 			vf_harness_fail("connect: %s", nng_strerror(rv));
 		}
 	}
@@ -1527,7 +1531,15 @@ noblock_case(long idx)
 			fds[i] = vf_tcp_accept(lfd, 5000);
 		}
 		if (fds[i] < 0) vf_harness_fail("raw peer connect");
-		if (vf_sp_handshake(fds[i], 0x21, &peer, 5000) != 0 || peer != 0x20) vf_harness_fail("SP handshake (peer %#x)", peer);
+		for (int tries = 0;; tries++) {
+			if (vf_sp_handshake(fds[i], 0x21, &peer, 5000) == 0 && peer == 0x20) break;
+			// a stray dialer of another process on this machine may have
+			// reached our ephemeral port: drop it and take the next one
+			close(fds[i]);
+			if (!dialout || tries >= 8) vf_harness_fail("SP handshake (peer %#x)", peer);
+			vf_stat("noblock_foreign_connections_dropped", 1);
+			if ((fds[i] = vf_tcp_accept(lfd, 5000)) < 0) vf_harness_fail("raw peer accept");
+		}
 	}
 	if (have_lazy) {
 		// an nng subscriber that matches everything and never receives
